@@ -30,7 +30,7 @@ RULE = (
 )
 ASSUMPTIONS = ["one session is open at a time", "overlay build against system HDF5 1.10.8"]
 FLOORS = {"nontrivial": 0.25}
-MISMATCH = ["kind", "size", "order", "S", "F", "n", "d", "cplx", "nsub", "cont", "nd-equiv"]
+MISMATCH = ["kind", "size", "order", "S", "F", "n", "d", "cplx", "nsub", "cont", "nd-equiv", "nd-equiv", "F+emptied-properties", "n+emptied-properties"]
 
 
 def budget(tier):
@@ -128,7 +128,7 @@ def histories(draw, tier):
             continue
         if sess.get("refused"):
             # after a refusal: retry the same period, go to a later free period, or give up
-            kind = draw(st.sampled_from(["retry", "retry", "later", "later", "later", "conflict", "close", "read"]))
+            kind = draw(st.sampled_from(["retry", "retry", "later", "later", "later", "conflict", "close", "read", "write", "write"]))
         else:
             kind = draw(st.sampled_from(["write"] * 5 + ["conflict", "conflict", "later", "close", "close", "read"]))
         if kind == "retry" and pending_retry is None:
@@ -146,6 +146,7 @@ def histories(draw, tier):
             cid += 1
             steps.append({"s": "write", "op": op, "expect": "refused", "prefix": 0, "retry": True})
             sess["refused"] = True
+            sess["cur"] = None
             continue
         if kind == "later":
             idx = free_later_start() - sess["start"]
@@ -212,6 +213,7 @@ def histories(draw, tier):
             steps.append({"s": "write", "op": op, "expect": "refused", "prefix": max(0, pre_end - op["idx"]) if prefix_stamps else 0})
             pending_retry = {k: v for k, v in op.items() if k != "cid"} if not prefix_stamps else None
             sess["refused"] = True
+            sess["cur"] = None  # the refused call has finalized the file this session had open: its period is taken now
     if sess is not None:
         steps.append({"s": "close"})
     steps.append({"s": "read"})
@@ -219,7 +221,7 @@ def histories(draw, tier):
     # length of the channel path, current directory, relative / decorated path spellings, a reader that stays open over
     # the whole history, refused calls repeated many times with few file descriptors to spare
     env = {
-        "pad": draw(st.sampled_from([0, 0, 0, 0, 150, 300, 600])),
+        "pad": draw(st.sampled_from([0, 0, 0, 0, 150, 300, 600, "odd", "odd"])),  # "odd": names containing pieces of the file-name grammar
         "cwd": draw(st.sampled_from([None, None, None, "chan", "chan", "top", "rel", "rel-dot"])),
         "keep_reader": draw(st.booleans()),
         "repeat": draw(st.sampled_from([1, 1, 1, 2, 40])),
@@ -270,6 +272,21 @@ def directed_cases(tier):
             e = {"pad": 0, "cwd": None, "keep_reader": False, "repeat": 1}
             e.update(env)
             out.append({"cfg": cfg, "ndirs": 1, "steps": steps, "env": e})
+        # a write that is refused because it lies AHEAD (in a later subdirectory that an earlier session recorded), then a
+        # valid write in between
+        steps = [{"s": "open", "dir": 0, "start": b + 3000, "salt": 5001, "uuid": "sess91", "mode": "first"},
+                 {"s": "write", "op": {"op": "w", "idx": 0, "len": 100, "cid": 0}, "expect": "ok"}, {"s": "close"},
+                 {"s": "open", "dir": 0, "start": b, "salt": 5002, "uuid": "sess92", "mode": "earlier"},
+                 {"s": "write", "op": {"op": "w", "idx": 0, "len": 50, "cid": 1}, "expect": "ok"},
+                 {"s": "write", "op": {"op": "w", "idx": 3000, "len": 10, "cid": 2}, "expect": "refused", "prefix": 0},
+                 {"s": "write", "op": {"op": "w", "idx": 1200, "len": 50, "cid": 3}, "expect": "ok"},
+                 {"s": "write", "op": {"op": "w", "idx": 1990, "len": 30, "cid": 4}, "expect": "ok"}, {"s": "close"}, {"s": "read"}]
+        out.append({"cfg": cfg, "ndirs": 1, "steps": steps, "env": {"pad": 0, "cwd": None, "keep_reader": False, "repeat": 1}})
+        # every kind of parameter mismatch against a channel that holds data
+        steps = [{"s": "open", "dir": 0, "start": b, "salt": 6001, "uuid": "sess93", "mode": "first"},
+                 {"s": "write", "op": {"op": "w", "idx": 0, "len": 250, "cid": 0}, "expect": "ok"}, {"s": "close"}]
+        steps += [{"s": "mismatch", "dir": 0, "param": pm} for pm in sorted(set(MISMATCH))] + [{"s": "read"}]
+        out.append({"cfg": cfg, "ndirs": 1, "steps": steps, "env": {"pad": 0, "cwd": None, "keep_reader": False, "repeat": 1}})
     return out
 
 
@@ -385,6 +402,9 @@ def run_case(case, keep=None, on_tree=None):
     with rfharness.scratch("c11") as base0:
         base = base0
         pad = env.get("pad", 0)
+        if pad == "odd":
+            base = os.path.join(base, "tmp.data", "site7.tmp.rf@2014.h5.d")
+            pad = 0
         while pad > 0:
             comp = "p" * min(pad, 180)
             base = os.path.join(base, comp)
@@ -445,12 +465,23 @@ def run_case(case, keep=None, on_tree=None):
                       last_written = None
                   elif kind == "mismatch":
                       chd = os.path.join(tops[st_["dir"]], "ch0")
+                      param = st_["param"]
+                      saved_props = None
+                      if param.endswith("+emptied-properties"):
+                          # another actor has truncated drf_properties.h5 of a channel that holds data: a writer whose
+                          # parameters differ from the channel's (as every data file records them) still must not get in
+                          param = param.split("+")[0]
+                          pp = os.path.join(chd, "drf_properties.h5")
+                          with open(pp, "rb") as f_:
+                              saved_props = f_.read()
+                          with open(pp, "wb"):
+                              pass
                       before = treeutil.snapshot(chd, mtime=True)
-                      bad = mismatched(dict(cfg0, start=cfg0["start"], salt=1, uuid="sessx"), st_["param"])
+                      bad = mismatched(dict(cfg0, start=cfg0["start"], salt=1, uuid="sessx"), param)
                       try:
                           with rfharness.quiet_fds():
                               w2 = rfharness.open_py_writer(bad, spell(chd))
-                          if st_["param"] == "nd-equiv":
+                          if True:
                               # (only reached when the session was wrongly accepted) let it record one file in a free later
                               # period, so that checks inspecting the files see what such a session leaves behind
                               stamps = [int(fn[3:-3].replace(".", "")) for t in tops for _, _, fns in os.walk(t) for fn in fns
@@ -467,6 +498,9 @@ def run_case(case, keep=None, on_tree=None):
                       after = treeutil.snapshot(chd, mtime=True)
                       if after != before:
                           fail("mismatch-changed-directory:" + st_["param"], "step %d: %s" % (si, treeutil.diff(before, after)))
+                      if saved_props is not None:
+                          with open(os.path.join(chd, "drf_properties.h5"), "wb") as f_:
+                              f_.write(saved_props)
                   elif kind == "linkify":
                       chd = os.path.join(tops[st_["dir"]], "ch0")
                       store = os.path.join(base, "store%d" % st_["dir"])
@@ -526,7 +560,8 @@ def run_case(case, keep=None, on_tree=None):
                       open_win = None
                       if w is not None and last_written is not None:
                           open_win = rfmodel.window(cfg0, rfmodel.file_ms(cfg0, last_written))
-                      _read_check(cfg0, tops, definite, maybe, file_owner_windows, fail, si, open_win, spell=spell, kept=kept)
+                      _read_check(cfg0, tops, definite, maybe, file_owner_windows, fail, si, open_win, spell=spell, kept=kept,
+                                  away=base0 if (cwd_mode in ("rel", "rel-dot") and w is None) else None)
                   # finalized files never change
                   now = final_hashes(tops)
                   for p, h in hashes.items():
@@ -586,7 +621,7 @@ def run_case(case, keep=None, on_tree=None):
     return res
 
 
-def _read_check(cfg, tops, definite, maybe, windows, fail, si, open_win=None, values_only=False, spell=None, kept=None):
+def _read_check(cfg, tops, definite, maybe, windows, fail, si, open_win=None, values_only=False, spell=None, kept=None, away=None):
     drf = rfharness.drf()
     usable = [t for t in tops if os.path.exists(os.path.join(t, "ch0", "drf_properties.h5"))]
     if not usable or not definite:
@@ -606,6 +641,22 @@ def _read_check(cfg, tops, definite, maybe, windows, fail, si, open_win=None, va
         else:
             with rfharness.quiet_fds():
                 rd = drf.DigitalRFReader(names if len(names) > 1 else names[0])
+        if away is not None:
+            # the reader was given relative directory names; the process changes its current directory afterwards
+            back = os.getcwd()
+            os.chdir(away)
+            try:
+                return _read_queries(cfg, rd, kept, definite, maybe, windows, fail, si, open_win, values_only)
+            finally:
+                os.chdir(back)
+        return _read_queries(cfg, rd, kept, definite, maybe, windows, fail, si, open_win, values_only)
+    except Exception as e:
+        fail("union-read-exception:%s" % type(e).__name__, "step %d: %s" % (si, e))
+
+
+def _read_queries(cfg, rd, kept, definite, maybe, windows, fail, si, open_win, values_only):
+    drf = rfharness.drf()
+    try:
         lo = min(min(definite), min(maybe) if maybe else min(definite))
         hi = max(max(definite), max(maybe) if maybe else max(definite))
         spf = rfmodel.samples_per_file_max(cfg)
